@@ -830,6 +830,25 @@ def BoolIs(origin, val=True, desc=None):
 TRY_MAP = {"Continue": {"Some", "Ok"}, "Break": {"None", "Err"}}
 
 
+class Clause:
+    """A disjunction of literals (an edge establishes the clause if it establishes one of them,
+    or if a tested bool's truthy defs are each guarded by the clause)."""
+
+    def __init__(self, lits):
+        self.lits = tuple(lits)
+
+    def __repr__(self):
+        return " OR ".join(repr(l) for l in self.lits)
+
+
+def _clause(lit):
+    if isinstance(lit, Clause):
+        return lit
+    if isinstance(lit, (list, tuple)):
+        return Clause(lit)
+    return Clause([lit])
+
+
 class OnlyIf:
     """Edge-cut engine for one body (with optional parameter substitution and inline depth)."""
 
@@ -843,13 +862,23 @@ class OnlyIf:
         self.stack = stack
         self._edges = {}
         self._inprog = set()
+        self._clauses = {}
 
-    # ---- value predicates: True / False / frozenset(variants)
-    def establishing_edges(self, lit: Lit):
-        """Set of (bb, succ, label) edges after which `lit` is known to hold (least fixpoint:
-        an edge may establish lit because a tested bool was defined in a block that is itself
+    def _norm(self, lit):
+        """Canonical Clause object per set of literal identities (so caching by id works)."""
+        c = _clause(lit)
+        k = tuple(id(l) for l in c.lits)
+        if k not in self._clauses:
+            self._clauses[k] = c
+        return self._clauses[k]
+
+    # ---- value predicates: ("bool", b) / ("eq", v, ty) / ("not", {v}, ty) / ("variants", {names})
+    def establishing_edges(self, lit):
+        """Set of (bb, succ, label) edges after which the clause is known to hold (least fixpoint:
+        an edge may establish it because a tested bool was defined in a block that is itself
         guarded by edges found in an earlier round)."""
-        k = id(lit)
+        cl = self._norm(lit)
+        k = id(cl)
         if k in self._edges and k not in self._inprog:
             return self._edges[k]
         if k in self._inprog:
@@ -857,14 +886,14 @@ class OnlyIf:
         self._inprog.add(k)
         self._edges[k] = set()
         for _round in range(6):
-            out = self._establishing_pass(lit)
+            out = self._establishing_pass(cl)
             if out == self._edges[k]:
                 break
             self._edges[k] = out
         self._inprog.discard(k)
         return self._edges[k]
 
-    def _establishing_pass(self, lit):
+    def _establishing_pass(self, cl):
         out = set()
         b = self.body
         for bi in b.live_blocks():
@@ -877,38 +906,40 @@ class OnlyIf:
                     pred = self._edge_pred(t, lab)
                     if pred is None:
                         continue
-                    op = t["o"]
-                    if self.implies_op(op, pred, lit, Site(b, bi, len(b.blocks[bi]["stmts"]))):
+                    if self.implies_op(t["o"], pred, cl, Site(b, bi, len(b.blocks[bi]["stmts"]))):
                         out.add((bi, s, lab))
             elif t["k"] == "assert":
-                # assert(cond == expected) continuing normally establishes cond == expected
                 if t.get("t") is not None:
                     pred = ("bool", t["expected"] == "true")
-                    if self.implies_op(t["cond"], pred, lit, Site(b, bi, len(b.blocks[bi]["stmts"]))):
+                    if self.implies_op(t["cond"], pred, cl, Site(b, bi, len(b.blocks[bi]["stmts"]))):
                         out.add((bi, t["t"], "ret"))
         return out
 
     def _edge_pred(self, t, lab):
-        """Value predicate on the switch operand for the edge label."""
         if lab[1] == "otherwise":
             vals = [int(v) for v, _ in t["targets"]]
             return ("not", frozenset(vals), t["ty"])
         return ("eq", lab[1], t["ty"])
 
-    # does "operand satisfies pred" imply lit?
-    def implies_op(self, op, pred, lit, at: Site):
+    # does "operand satisfies pred" imply the clause?
+    def implies_op(self, op, pred, lit, at: Site = None):
+        cl = self._norm(lit)
         if "k" in op:
-            c = op["k"].get("v")
+            k = op["k"]
+            c = k.get("v")
+            if pred[0] == "variants":
+                if "variant" in k:
+                    return k["variant"] not in pred[1]
+                return False
             if c is None:
                 return False
-            return not self._const_satisfies(int(c), pred) or False
+            return not self._const_satisfies(int(c), pred)
         p = op.get("c") or op.get("m")
         if p is None:
             return False
         if p["pj"]:
-            # a projected place (e.g. a bool field) tested directly
-            return self._implies_place_value(p, pred, lit)
-        return self.implies_local(p["l"], pred, lit, ())
+            return self._implies_place_value(p, pred, cl)
+        return self.implies_local(p["l"], pred, cl, ())
 
     def _const_satisfies(self, c, pred):
         if pred[0] == "eq":
@@ -920,103 +951,105 @@ class OnlyIf:
         return True
 
     def _pred_bool(self, pred):
-        """Translate integer predicate on a bool into True/False/None."""
         if pred[0] == "bool":
             return pred[1]
         if pred[0] == "eq":
-            return bool(pred[1])
+            return bool(pred[1]) if pred[1] in (0, 1) and pred[2] == "bool" else None
         if pred[0] == "not":
             vs = pred[1]
+            if pred[2] != "bool":
+                return None
             if vs == frozenset([0]):
                 return True
             if vs == frozenset([1]):
                 return False
         return None
 
-    def _implies_place_value(self, p, pred, lit):
-        if lit.kind == "bool":
-            o = self.body.origin_place(p, 0, self.subst)
-            pb = self._pred_bool(pred)
-            return pb is not None and lit.origin.search(o) is not None and pb == lit.val
+    def _implies_place_value(self, p, pred, cl):
+        o = self.body.origin_place(p, 0, self.subst)
+        pb = self._pred_bool(pred)
+        for lit in cl.lits:
+            if lit.kind == "bool" and pb is not None and lit.origin.search(o) is not None and pb == lit.val:
+                return True
         return False
 
-    def implies_local(self, l, pred, lit, stack):
+    def implies_local(self, l, pred, lit, stack=()):
+        cl = self._norm(lit)
         b = self.body
         if l in stack:
             return False
         ds = b.full_defs(l)
         if not ds:
-            # parameter or upvar tested directly
-            if lit.kind == "bool":
-                o = b.origin_local(l, 0, self.subst)
-                pb = self._pred_bool(pred)
-                return pb is not None and lit.origin.search(o) is not None and pb == lit.val
+            o = b.origin_local(l, 0, self.subst)
+            pb = self._pred_bool(pred)
+            for lt in cl.lits:
+                if lt.kind == "bool" and pb is not None and lt.origin.search(o) is not None and pb == lt.val:
+                    return True
             return False
         for site, kind, node in ds:
-            if not self._def_implies(site, kind, node, pred, lit, stack + (l,)):
+            if not self._def_implies(site, kind, node, pred, cl, stack + (l,)):
                 return False
         return True
 
-    def _def_implies(self, site, kind, node, pred, lit, stack):
+    def _def_implies(self, site, kind, node, pred, cl, stack):
         b = self.body
         if kind == "call":
-            return self._call_implies(site, node, pred, lit, stack)
+            return self._call_implies(site, node, pred, cl, stack)
         rv = node["rv"]
         k = rv["k"]
         if k == "use":
             o = rv["o"]
             if "k" in o:
-                c = o["k"].get("v")
+                kk = o["k"]
+                if pred[0] == "variants":
+                    if "variant" in kk and kk["variant"] not in pred[1]:
+                        return True
+                    return self.guarded_block(site.bb, cl)
+                c = kk.get("v")
                 if c is None:
-                    return False
+                    return self.guarded_block(site.bb, cl)
                 if not self._const_satisfies(int(c), pred):
                     return True  # this def never yields the tested value
-                return self.guarded_block(site.bb, lit)
+                return self.guarded_block(site.bb, cl)
             p = o.get("c") or o.get("m")
             if p["pj"]:
-                if self._implies_place_value(p, pred, lit):
+                if self._implies_place_value(p, pred, cl):
                     return True
-                return self.guarded_block(site.bb, lit)
-            if self.implies_local(p["l"], pred, lit, stack):
+                return self.guarded_block(site.bb, cl)
+            if self.implies_local(p["l"], pred, cl, stack):
                 return True
-            return self.guarded_block(site.bb, lit)
+            return self.guarded_block(site.bb, cl)
         if k == "un" and rv["op"] == "Not":
             pb = self._pred_bool(pred)
             if pb is None:
-                return False
-            return self.implies_op(rv["a"], ("bool", not pb), lit, site) or self.guarded_block(site.bb, lit)
+                return self.guarded_block(site.bb, cl)
+            return self.implies_op(rv["a"], ("bool", not pb), cl, site) or self.guarded_block(site.bb, cl)
         if k == "bin":
             op = rv["op"]
             pb = self._pred_bool(pred)
-            if op in BINOP_CMP and pb is not None and lit.kind == "cmp":
+            if op in BINOP_CMP and pb is not None:
                 oa = b.origin_op(rv["a"], 0, self.subst)
                 ob = b.origin_op(rv["b"], 0, self.subst)
-                if self._cmp_establishes(BINOP_CMP[op], pb, oa, ob, lit):
+                if self._cmp_establishes(BINOP_CMP[op], pb, oa, ob, cl):
                     return True
             if op == "BitAnd" and pb is True:
-                if self.implies_op(rv["a"], ("bool", True), lit, site) or self.implies_op(rv["b"], ("bool", True), lit, site):
+                if self.implies_op(rv["a"], ("bool", True), cl, site) or self.implies_op(rv["b"], ("bool", True), cl, site):
                     return True
             if op == "BitOr" and pb is False:
-                if self.implies_op(rv["a"], ("bool", False), lit, site) or self.implies_op(rv["b"], ("bool", False), lit, site):
+                if self.implies_op(rv["a"], ("bool", False), cl, site) or self.implies_op(rv["b"], ("bool", False), cl, site):
                     return True
-            return self.guarded_block(site.bb, lit)
+            return self.guarded_block(site.bb, cl)
         if k == "discr":
-            # discriminant of a place: pred is on the integer discriminant
-            if lit.kind == "var":
-                return self._discr_implies(rv, pred, lit) or self.guarded_block(site.bb, lit)
-            return self.guarded_block(site.bb, lit)
+            return self._discr_implies(rv, pred, cl) or self.guarded_block(site.bb, cl)
         if k == "agg" and rv.get("ak") == "adt":
-            # enum value constructed here; relevant for "returns variant" predicates
-            if pred[0] == "variants":
-                if rv["variant"] not in pred[1]:
-                    return True
-                return self.guarded_block(site.bb, lit)
-            return self.guarded_block(site.bb, lit)
+            if pred[0] == "variants" and rv["variant"] not in pred[1]:
+                return True
+            return self.guarded_block(site.bb, cl)
         if k == "cast":
-            return self.implies_op(rv["o"], pred, lit, site) or self.guarded_block(site.bb, lit)
-        return self.guarded_block(site.bb, lit)
+            return self.implies_op(rv["o"], pred, cl, site) or self.guarded_block(site.bb, cl)
+        return self.guarded_block(site.bb, cl)
 
-    def _discr_implies(self, rv, pred, lit):
+    def _discr_implies(self, rv, pred, cl):
         b = self.body
         p = rv["p"]
         adt = rv.get("adt")
@@ -1027,15 +1060,25 @@ class OnlyIf:
         allowed = self._allowed_variants(names, pred)
         if allowed is None:
             return False
-        # Try::branch(x): ControlFlow variants map to those of x
-        m = re.match(r"^<[^>]*as std::ops::Try>::branch\((.*)\)$", o)
-        if m:
-            inner = m.group(1)
-            mapped = set()
-            for a in allowed:
-                mapped |= TRY_MAP.get(a, {a})
-            return lit.place.search(inner) is not None and mapped <= lit.variants | ({"Ok"} if "Some" in lit.variants else set()) | ({"Err"} if "None" in lit.variants else set())
-        return lit.place.search(o) is not None and allowed <= lit.variants
+        m = _TRY_RX.match(o)
+        for lit in cl.lits:
+            if lit.kind != "var":
+                continue
+            if m:
+                inner = m.group(1)
+                mapped = set()
+                for a in allowed:
+                    mapped |= TRY_MAP.get(a, {a})
+                extra = set()
+                if "Some" in lit.variants:
+                    extra.add("Ok")
+                if "None" in lit.variants:
+                    extra.add("Err")
+                if lit.place.search(inner) is not None and mapped <= (lit.variants | extra):
+                    return True
+            if lit.place.search(o) is not None and allowed <= lit.variants:
+                return True
+        return False
 
     def _variant_names(self, adt):
         if adt is None:
@@ -1049,8 +1092,6 @@ class OnlyIf:
             return {0: "Ok", 1: "Err"}
         if adt == "std::ops::ControlFlow":
             return {0: "Continue", 1: "Break"}
-        if adt == "std::cmp::Ordering":
-            return {-1 % (1 << 8): "Less", 255: "Less", 0: "Equal", 1: "Greater", (1 << 128) - 1: "Less", (1<<64)-1: "Less"}
         return None
 
     def _allowed_variants(self, names, pred):
@@ -1061,66 +1102,63 @@ class OnlyIf:
             return {n for v, n in names.items() if v not in pred[1]}
         return None
 
-    def _cmp_establishes(self, opstr, truth, oa, ob, lit):
+    def _cmp_establishes(self, opstr, truth, oa, ob, cl):
         rel = REL_TRUE[opstr] if truth else ALLREL - REL_TRUE[opstr]
-        if lit.a.search(oa) and lit.b.search(ob) and rel <= lit.rel:
-            return True
-        if lit.a.search(ob) and lit.b.search(oa) and flip_rel(rel) <= lit.rel:
-            return True
+        for lit in cl.lits:
+            if lit.kind != "cmp":
+                continue
+            if lit.a.search(oa) and lit.b.search(ob) and rel <= lit.rel:
+                return True
+            if lit.a.search(ob) and lit.b.search(oa) and flip_rel(rel) <= lit.rel:
+                return True
         return False
 
-    def _call_implies(self, site, node, pred, lit, stack):
+    def _call_implies(self, site, node, pred, cl, stack):
         b = self.body
         f = node["fn"]
         name = f.get("def")
         if name is None:
-            return self.guarded_block(site.bb, lit)
+            return self.guarded_block(site.bb, cl)
         resolved = f.get("resolved") or name
         args = [b.origin_op(a, 0, self.subst) for a in node["args"]]
         pb = self._pred_bool(pred)
-        # comparison methods
-        if name in CMP_METHODS and pb is not None and lit.kind == "cmp" and len(args) == 2:
-            if self._cmp_establishes(CMP_METHODS[name], pb, args[0], args[1], lit):
+        if name in CMP_METHODS and pb is not None and len(args) == 2:
+            if self._cmp_establishes(CMP_METHODS[name], pb, args[0], args[1], cl):
                 return True
-        # direct call literal
-        if lit.kind == "call" and pb is not None and (lit.fn.search(name) or lit.fn.search(resolved)):
-            ok = True
-            for i, rx in enumerate(lit.args):
-                if rx is not None and (i >= len(args) or not rx.search(args[i])):
-                    ok = False
-            if ok and pb == lit.val:
-                return True
-        # Option::is_some / is_none on a place
-        if lit.kind == "var" and pb is not None and args:
-            nm = name.split("::")[-1]
-            tbl = {"is_some": ({"Some"}, {"None"}), "is_none": ({"None"}, {"Some"}), "is_ok": ({"Ok"}, {"Err"}), "is_err": ({"Err"}, {"Ok"})}
-            if nm in tbl and name.startswith(("std::option::Option", "std::result::Result")):
-                vs = tbl[nm][0] if pb else tbl[nm][1]
-                if lit.place.search(args[0]) and vs <= lit.variants:
+        for lit in cl.lits:
+            if lit.kind == "call" and pb is not None and (lit.fn.search(name) or lit.fn.search(resolved)):
+                ok = True
+                for i, rx in enumerate(lit.args):
+                    if rx is not None and (i >= len(args) or not rx.search(args[i])):
+                        ok = False
+                if ok and pb == lit.val:
                     return True
-        # calls whose result variant is known
+            if lit.kind == "var" and pb is not None and args:
+                nm = name.split("::")[-1]
+                tbl = {"is_some": ({"Some"}, {"None"}), "is_none": ({"None"}, {"Some"}), "is_ok": ({"Ok"}, {"Err"}), "is_err": ({"Err"}, {"Ok"})}
+                if nm in tbl and name.startswith(("std::option::Option", "std::result::Result")):
+                    vs = tbl[nm][0] if pb else tbl[nm][1]
+                    if lit.place.search(args[0]) and vs <= lit.variants:
+                        return True
         if pred[0] == "variants" and name == "std::ops::FromResidual::from_residual":
             st = f.get("self_ty", "")
             v = "None" if st.startswith("std::option::Option") else ("Err" if st.startswith("std::result::Result") else None)
             if v is not None and v not in pred[1]:
                 return True
-        # transparent: value is arg0
         if name in TRANSPARENT_CALLS and node["args"]:
-            if self.implies_op(node["args"][0], pred, lit, site):
+            if self.implies_op(node["args"][0], pred, cl, site):
                 return True
-        # inline a same-crate helper
         cb = self.facts.body(resolved) or self.facts.body(name)
         if cb is not None and self.depth < self.MAX_DEPTH and cb.path not in self.stack and cb is not b:
             sub = {i + 1: args[i] for i in range(min(len(args), cb.argc))}
             inner = OnlyIf(self.facts, cb, sub, self.depth + 1, self.stack + (b.path,))
-            ipred = pred
-            if inner.implies_local(0, ipred, lit, ()):
+            if inner.implies_local(0, pred, Clause(cl.lits), ()):
                 return True
-        return self.guarded_block(site.bb, lit)
+        return self.guarded_block(site.bb, cl)
 
     # ---- guardedness
     def guarded_block(self, bb, lit):
-        """Block bb is reachable only after an edge establishing lit."""
+        """Block bb is reachable only after an edge establishing the clause."""
         edges = self.establishing_edges(lit)
         if not edges:
             return False
@@ -1131,18 +1169,10 @@ class OnlyIf:
         return self.guarded_block(site.bb, lit)
 
     def guarded_clause(self, site: Site, lits):
-        """Disjunction: every path to site passes an edge establishing one of lits."""
-        edges = set()
-        for l in lits:
-            edges |= self.establishing_edges(l)
-        if not edges:
-            return False
-        return site.bb not in self.body.reachable(0, "normal", cut_edges=edges)
+        return self.guarded_block(site.bb, Clause(lits))
 
     def witness_path(self, site: Site, lits):
-        edges = set()
-        for l in lits:
-            edges |= self.establishing_edges(l)
+        edges = self.establishing_edges(Clause(lits) if isinstance(lits, (list, tuple)) else lits)
         b = self.body
         prev = {0: None}
         stack = [0]
@@ -1163,7 +1193,7 @@ class OnlyIf:
         return None
 
     def returns_only_if(self, pred, lit):
-        """Return value satisfies pred (True/False/variant set) only if lit."""
+        """Return value satisfies pred (True/False/variant set) only if the clause holds."""
         if isinstance(pred, bool):
             p = ("bool", pred)
         else:
